@@ -217,6 +217,14 @@ def handle (G : Codec) (m : Mgr) (c : Chunk) : Mgr × HRes :=
     | (d', .ok false) => ({ live := put m.live c.sid d' }, .ok)
     | (d', e) => ({ live := put m.live c.sid d' }, .err e)
 
+/-- `DechunkerManager.Close` (reached from store.RecoverNode's deferred Close): every dechunker's
+file is closed, and `delete(d.m, dc.streamID)` removes the entry whose KEY equals that
+dechunker's stream id (which is the entry itself when the dechunker was used through the
+command processor). The temp files are NOT removed: returns the map left and the number of
+temp files still on disk. -/
+def Mgr.closeAll (m : Mgr) : Mgr × Nat :=
+  ({ live := m.live.filter (fun p => !m.live.any (fun q => q.2.sid == p.1)) }, m.live.length)
+
 /-- temp files present in the manager's directory: one per live dechunker -/
 def Mgr.files (m : Mgr) : Nat := m.live.length
 
@@ -233,7 +241,7 @@ of hex, `b<hex>` = invalid gzip whose decoder wrote hex first, `-` = nil Data.
 `dnew` → ok;  `write <sid> <seq> <last> <data>` → `ok <last>` | `err-stream|err-order|err-codec`
 `dstate` → `<sid> <seq> <filehex>`
 `mnew` → ok;  `handle <sid> <seq> <last> <abort> <data>` → `ok` | `installed <hex>` | `err-…`
-`mfiles` → count;  `mhas <sid>` → true|false
+`mfiles` → count;  `mhas <sid>` → true|false;  `mclose` → `<entries left> <temp files left on disk>`
 -/
 
 def drvCodec : Codec where
@@ -320,6 +328,9 @@ def step (s : DState) (line : String) : DState × String :=
         | .err e => wresStr e)
     | none => (s, "bad-op")
   | ["mfiles"] => (s, toString s.m.files)
+  | ["mclose"] =>
+    let r := s.m.closeAll
+    ({ s with m := r.1 }, s!"{r.1.live.length} {r.2}")
   | ["mhas", sid] =>
     match tokString sid with
     | some sid => (s, boolStr (lookup s.m.live sid).isSome)
